@@ -56,6 +56,9 @@ def parsePolicy (t : String) : Option Policy :=
   else if t == "echo" then some .echo
   else if t.startsWith "fixed=" then (unbr (t.drop 6).toString).map .fixed
   else if t == "raise" then some .raise
+  else if t == "ro" then some .readOnly
+  else if t == "wo" then some .writeOnly
+  else if t.startsWith "ropath=" then (unbr (t.drop 7).toString).map .roPath
   else if t.startsWith "raiseon=" then (unbr (t.drop 8).toString).map .raiseOn
   else if t.startsWith "odd=" then (unbr (t.drop 4).toString).map (fun w => .odd (unstr w))
   else none
@@ -110,9 +113,29 @@ def MState.emit (s : MState) (evs : List Ev) : MState :=
   { s with out := (evs.map render).reverse ++ s.out }
 
 def uLp (s : CStr) : Ev := .lp s (legalPath s)
-def uCvp (pol : Policy) (s : CStr) : Ev := .cvp (pol.verdict s) s (checkValidPath true (pol.verdict s) s)
+def uCvp (pol : Policy) (s : CStr) : Ev :=
+  .cvp (pol.verdict false s) s (checkValidPath true (pol.verdict false s) s)   -- the harness asks with writeflg = 0
 def uSn (s : CStr) : Ev := .sn s (stripName s)
 def uInc (base name : CStr) : Ev := .inc base name (incNormal base name) (incTries incGuarded incDirs base name)
+
+def parseEdCmd (t : String) : Option EdCmd :=
+  let (c, arg) := match t.splitOn ":" with
+    | [c] => (c, "")
+    | c :: rest => (c, ":".intercalate rest)
+    | [] => ("", "")
+  let a := arg.toList
+  match c with
+  | "a" => some (.a a) | "e" => some (.e a) | "E" => some (.E a) | "f" => some (.f a) | "r" => some (.r a)
+  | "w" => some (.w a) | "W" => some (.W a)
+  | "x" => if a = [] then some .x else none
+  | "q" => if a = [] then some .q else none
+  | "Q" => if a = [] then some .Q else none
+  | _ => none
+
+def parseEdCmds (t : String) : Option (List EdCmd) :=
+  let parts := (t.splitOn ",").filter (· ≠ "")
+  let cs := parts.map parseEdCmd
+  if cs.all Option.isSome then some (cs.filterMap id) else none
 
 def modelLine (s : MState) (line : String) : MState :=
   let bad := { s with out := s!"bad-line {line}" :: s.out }
@@ -146,6 +169,18 @@ def modelLine (s : MState) (line : String) : MState :=
     | some b, some l, some f, some c => s.emit ((enumStrings al l f c).map (uInc b))
     | _, _, _, _ => bad
   | ["master", "absent"] => { s with absent := true }.emit [.mode true]
+  | ["es", f] => match unbr f with
+    | some f => s.emit (sysSession s.absent s.pol [] [.start f])
+    | none => bad
+  | ["es", f, cs] => match unbr f, parseEdCmds cs with
+    | some f, some cs => s.emit (sysSession s.absent s.pol [] (.start f :: cs))
+    | _, _ => bad
+  | ["fx", "ed", a] => match unbr a with
+    | some a => s.emit (sysSession s.absent s.pol [] [.start a])
+    | none => bad
+  | ["fx", "ed", a, b] => match unbr a, unbr b with
+    | some a, some b => s.emit (sysSession s.absent s.pol [] (.start a :: (if b = [] then [] else [.w b])))
+    | _, _ => bad
   | ["fx", e, a] => match unbr a with
     | some a => s.emit (.call e whoObj [a] :: sysEvents s.absent s.pol [] e a [])
     | none => bad
